@@ -521,3 +521,266 @@ Proof.
   rewrite dense_candidates_nil in Hs. rewrite dense_value_dash_first in Hs.
   erewrite map_ext in Hs; [exact Hs|]. intro a. cbn beta. rewrite dense_value_dash_first. reflexivity.
 Qed.
+
+(* ================================================================= triangular traversal = dense column sums *)
+Definition enum_from {A} (k : nat) (l : list A) : list (nat * A) := combine (seq k (length l)) l.
+
+Lemma enum_from_cons {A} k (x : A) l : enum_from k (x :: l) = (k, x) :: enum_from (S k) l.
+Proof. reflexivity. Qed.
+Lemma enum_from_app {A} k (a b : list A) : enum_from k (a ++ b) = enum_from k a ++ enum_from (k + length a) b.
+Proof. revert k. induction a as [|x a IH]; intro k; [cbn [app length]; rewrite Nat.add_0_r; reflexivity|].
+  rewrite <- app_comm_cons, !enum_from_cons, IH. cbn [app length].
+  replace (k + S (length a))%nat with (S k + length a)%nat by lia. reflexivity. Qed.
+
+Lemma vadd_maps {A} (f g : A -> Qc) l : vadd (map f l) (map g l) = map (fun x => f x + g x) l.
+Proof. unfold vadd. rewrite map2_map_l, map2_map_r, map2_same. reflexivity. Qed.
+Lemma vzero_map {A} (l : list A) : vzero (length l) = map (fun _ => 0) l.
+Proof. unfold vzero. induction l as [|x l IH]; cbn [length repeat map]; [reflexivity | rewrite IH; reflexivity]. Qed.
+
+Section Tri.
+Variable K : list (list Qc).
+
+Definition rsum (X : list nat) (r : nat) : Qc := qsum (map (fun c => kent K r c) X).
+Definition csum (X : list nat) (c : nat) : Qc := qsum (map (fun r => kent K r c) X).
+
+Lemma rsum_app X Y r : rsum (X ++ Y) r = rsum X r + rsum Y r.
+Proof. unfold rsum. rewrite map_app, qsum_app. reflexivity. Qed.
+Lemma csum_app X Y c : csum (X ++ Y) c = csum X c + csum Y c.
+Proof. unfold csum. rewrite map_app, qsum_app. reflexivity. Qed.
+
+Lemma fold_vadd_maps {A} (h : A -> nat -> Qc) (g : nat -> Qc) (post : list A) (cols : list nat) :
+  fold_left vadd (map (fun a => map (h a) cols) post) (map g cols)
+  = map (fun c => g c + qsum (map (fun a => h a c) post)) cols.
+Proof.
+  revert g. induction post as [|a post IH]; intro g; cbn [map fold_left qsum].
+  - apply map_ext. intro c. ring.
+  - rewrite vadd_maps, IH. apply map_ext. intro c. ring.
+Qed.
+
+Lemma inner_skip bc cols pre k st : (k + length pre <= bc)%nat ->
+  fold_left (tri_inner K bc cols) (enum_from k pre) st = st.
+Proof.
+  revert k. induction pre as [|x pre IH]; intros k H; [reflexivity|].
+  rewrite enum_from_cons. cbn [fold_left length] in *. destruct st as [[acc rs] dg].
+  unfold tri_inner at 2. assert (E : (k <? bc)%nat = true) by (apply Nat.ltb_lt; lia). rewrite E.
+  apply IH. lia.
+Qed.
+
+Fixpoint post_rs (bc : nat) (cols : list nat) (k : nat) (post : list (list nat)) (rs : list (list Qc)) :=
+  match post with
+  | [] => rs
+  | rows :: post' =>
+      post_rs bc cols (S k) post'
+        (if (bc =? 0)%nat then rs ++ [block_rowsum K rows cols]
+         else upd k (vadd (nth k rs []) (block_rowsum K rows cols)) rs)
+  end.
+
+Lemma inner_post bc cols post k acc rs dg : (bc < k)%nat ->
+  fold_left (tri_inner K bc cols) (enum_from k post) (acc, rs, dg)
+  = (fold_left vadd (map (fun rows => block_colsum K rows cols) post) acc, post_rs bc cols k post rs, dg).
+Proof.
+  revert k acc rs. induction post as [|rows post IH]; intros k acc rs H; [reflexivity|].
+  rewrite enum_from_cons. cbn [fold_left map post_rs]. unfold tri_inner at 2.
+  assert (E1 : (k <? bc)%nat = false) by (apply Nat.ltb_ge; lia).
+  assert (E2 : (k =? bc)%nat = false) by (apply Nat.eqb_neq; lia).
+  rewrite E1, E2. apply IH. lia.
+Qed.
+
+Lemma post_rs_zero cols k post rs :
+  post_rs 0 cols k post rs = rs ++ map (fun rows => block_rowsum K rows cols) post.
+Proof. revert k rs. induction post as [|rows post IH]; intros k rs; cbn [post_rs map Nat.eqb];
+  [rewrite app_nil_r; reflexivity | rewrite IH, <- app_assoc; reflexivity]. Qed.
+
+Lemma post_rs_pos bc cols post k rs : (bc <> 0)%nat -> (k + length post <= length rs)%nat ->
+  length (post_rs bc cols k post rs) = length rs /\
+  forall j, nth j (post_rs bc cols k post rs) []
+            = if ((k <=? j) && (j <? k + length post))%nat
+              then vadd (nth j rs []) (block_rowsum K (nth (j - k) post []) cols)
+              else nth j rs [].
+Proof.
+  intro Hbc. revert k rs. induction post as [|rows post IH]; intros k rs H.
+  - split; [reflexivity|]. intro j. cbn [post_rs length]. rewrite Nat.add_0_r.
+    destruct (k <=? j)%nat eqn:E1; destruct (j <? k)%nat eqn:E2; cbn [andb]; try reflexivity.
+    apply Nat.leb_le in E1. apply Nat.ltb_lt in E2. lia.
+  - cbn [post_rs length] in *. assert (E : (bc =? 0)%nat = false) by (apply Nat.eqb_neq; exact Hbc). rewrite E.
+    set (rs1 := upd k (vadd (nth k rs []) (block_rowsum K rows cols)) rs).
+    assert (Hl : length rs1 = length rs) by apply upd_length.
+    destruct (IH (S k) rs1) as [IH1 IH2]; [rewrite Hl; clear - H; lia|].
+    split; [rewrite IH1; exact Hl|]. intro j. rewrite IH2.
+    destruct (Nat.eq_dec j k) as [->|Hjk].
+    + assert (E1 : (S k <=? k)%nat = false) by (apply Nat.leb_gt; lia). rewrite E1. cbn [andb].
+      assert (E2 : (k <=? k)%nat = true) by (apply Nat.leb_le; lia).
+      assert (E3 : (k <? k + S (length post))%nat = true) by (apply Nat.ltb_lt; lia).
+      rewrite E2, E3. cbn [andb]. rewrite Nat.sub_diag. cbn [nth]. unfold rs1. apply nth_upd_same. lia.
+    + assert (Hn : nth j rs1 [] = nth j rs []) by (unfold rs1; apply nth_upd_other; lia). rewrite Hn.
+      destruct (S k <=? j)%nat eqn:E1.
+      * apply Nat.leb_le in E1. assert (E2 : (k <=? j)%nat = true) by (apply Nat.leb_le; lia). rewrite E2.
+        replace (k + S (length post))%nat with (S k + length post)%nat by lia.
+        destruct (j <? S k + length post)%nat; cbn [andb]; [|reflexivity].
+        replace (j - k)%nat with (S (j - S k)) by lia. reflexivity.
+      * apply Nat.leb_gt in E1. assert (E2 : (k <=? j)%nat = false) by (apply Nat.leb_gt; lia). rewrite E2.
+        reflexivity.
+Qed.
+
+(* one column batch: inner loop over all the batches of B = pre ++ cols :: post *)
+Lemma inner_all pre cols post rs dg :
+  fold_left (tri_inner K (length pre) cols) (enum (pre ++ cols :: post)) (vzero (length cols), rs, dg)
+  = (fold_left vadd (map (fun rows => block_colsum K rows cols) post)
+       (vadd (vadd (vzero (length cols)) (block_colsum K cols cols)) (nth (length pre) rs [])),
+     post_rs (length pre) cols (S (length pre)) post rs,
+     dg ++ [block_diag K cols cols]).
+Proof.
+  change (enum (pre ++ cols :: post)) with (enum_from 0 (pre ++ cols :: post)).
+  rewrite enum_from_app, fold_left_app. rewrite (inner_skip (length pre) cols pre 0) by lia. cbn [plus]. rewrite enum_from_cons.
+  cbn [fold_left]. unfold tri_inner at 2.
+  assert (E1 : (length pre <? length pre)%nat = false) by (apply Nat.ltb_ge; lia).
+  rewrite E1, Nat.eqb_refl. apply inner_post. lia.
+Qed.
+
+Variable B : list (list nat).
+(* K is symmetric on the indices of the dataset *)
+Hypothesis Hsym : forall r c, In r (concat B) -> In c (concat B) -> kent K r c = kent K c r.
+
+Definition rs_inv (bc : nat) (rs : list (list Qc)) : Prop :=
+  ((bc = 0)%nat \/ length rs = length B) /\
+  forall j, (bc <= j < length B)%nat -> ((bc = 0)%nat -> (j = 0)%nat) ->
+            nth j rs [] = block_rowsum K (nth j B []) (concat (firstn bc B)).
+
+Lemma in_concat_nth j x : In x (nth j B []) -> In x (concat B).
+Proof. intro H. apply in_concat. exists (nth j B []). split; [|exact H].
+  destruct (Nat.lt_ge_cases j (length B)) as [Hl|Hl]; [apply nth_In; exact Hl|].
+  rewrite nth_overflow in H by exact Hl. destruct H. Qed.
+
+Lemma outer_all rest pre cs rs dg : B = pre ++ rest -> rs_inv (length pre) rs ->
+  (pre = [] -> rs = [vzero (length (hd [] B))]) ->
+  exists rsf, fold_left (tri_outer K B) (enum_from (length pre) rest) (cs, rs, dg)
+    = (cs ++ map (fun cols => map (csum (concat B)) cols) rest, rsf,
+       dg ++ map (fun cols => map (fun c => kent K c c) cols) rest).
+Proof.
+  revert pre cs rs dg. induction rest as [|cols rest IH]; intros pre cs rs dg HB Hinv H0.
+  - exists rs. cbn [enum_from length seq combine fold_left map]. rewrite !app_nil_r. reflexivity.
+  - rewrite enum_from_cons. cbn [fold_left]. unfold tri_outer at 2.
+    replace (enum B) with (enum (pre ++ cols :: rest)) by (rewrite <- HB; reflexivity). rewrite inner_all.
+    set (bc := length pre) in *.
+    (* the value read on the diagonal: row sums over the previous column batches *)
+    assert (Hcols : nth bc B [] = cols).
+    { rewrite HB. unfold bc. rewrite app_nth2 by lia. rewrite Nat.sub_diag. reflexivity. }
+    assert (Hbc : (bc < length B)%nat) by (rewrite HB, app_length; cbn [length]; unfold bc; lia).
+    assert (Hfirst : firstn bc B = pre).
+    { rewrite HB. unfold bc. rewrite firstn_app, Nat.sub_diag, firstn_all. cbn [firstn]. apply app_nil_r. }
+    assert (Hd : nth bc rs [] = map (rsum (concat pre)) cols).
+    { destruct Hinv as [_ Hn]. rewrite (Hn bc); [rewrite Hcols, Hfirst; reflexivity | lia | auto]. }
+    (* column sums of the batch *)
+    assert (Hacc : fold_left vadd (map (fun rows => block_colsum K rows cols) rest)
+                     (vadd (vadd (vzero (length cols)) (block_colsum K cols cols)) (nth bc rs []))
+                   = map (csum (concat B)) cols).
+    { rewrite Hd, vzero_map. unfold block_colsum. fold (csum cols).
+      rewrite (vadd_maps (fun _ => 0) (fun c => csum cols c)), vadd_maps.
+      rewrite (fold_vadd_maps (fun rows c => qsum (map (fun r => kent K r c) rows))).
+      apply map_ext_in. intros c Hc. rewrite HB, concat_app. cbn [concat]. rewrite !csum_app.
+      assert (Hsw : rsum (concat pre) c = csum (concat pre) c).
+      { unfold rsum, csum. apply qsum_map_ext. intros x Hx. apply Hsym.
+        - rewrite HB, concat_app. apply in_or_app. right. cbn [concat]. apply in_or_app. left. exact Hc.
+        - rewrite HB, concat_app. apply in_or_app. left. exact Hx. }
+      rewrite Hsw.
+      assert (Hrest : qsum (map (fun a => qsum (map (fun r => kent K r c) a)) rest) = csum (concat rest) c).
+      { unfold csum. clear. induction rest as [|a l IHl]; cbn [map qsum concat]; [reflexivity|].
+        rewrite map_app, qsum_app, IHl. reflexivity. }
+      rewrite Hrest. ring. }
+    rewrite Hacc.
+    assert (Hdiag : block_diag K cols cols = map (fun c => kent K c c) cols).
+    { unfold block_diag. apply map2_same. }
+    rewrite Hdiag.
+    (* invariant for the next column batch *)
+    set (rs' := post_rs bc cols (S bc) rest rs).
+    destruct (IH (pre ++ [cols]) (cs ++ [map (csum (concat B)) cols]) rs'
+                 (dg ++ [map (fun c => kent K c c) cols])) as [rsf Hf].
+    + rewrite <- app_assoc. exact HB.
+    + rewrite app_length. cbn [length]. fold bc. replace (bc + 1)%nat with (S bc) by lia.
+      assert (Hfirst' : concat (firstn (S bc) B) = concat pre ++ cols).
+      { rewrite HB. replace (pre ++ cols :: rest) with ((pre ++ [cols]) ++ rest) by (rewrite <- app_assoc; reflexivity).
+        replace (S bc) with (length (pre ++ [cols])) by (rewrite app_length; cbn [length]; unfold bc; lia).
+        rewrite firstn_app, Nat.sub_diag, firstn_all. cbn [firstn]. rewrite app_nil_r, concat_app.
+        cbn [concat]. rewrite app_nil_r. reflexivity. }
+      assert (HnthB : forall j, (S bc <= j)%nat -> nth j B [] = nth (j - S bc) rest []).
+      { intros j Hj. rewrite HB. rewrite app_nth2 by (fold bc; lia). fold bc.
+        replace (j - bc)%nat with (S (j - S bc)) by lia. reflexivity. }
+      destruct (Nat.eq_dec bc 0) as [Hz|Hnz].
+      * (* first column batch: row sums are appended *)
+        assert (Hpre : pre = []) by (destruct pre; [reflexivity | unfold bc in Hz; discriminate]).
+        specialize (H0 Hpre). unfold rs'. rewrite Hz, post_rs_zero, H0. split.
+        -- right. rewrite app_length, map_length. cbn [length]. rewrite HB, Hpre. reflexivity.
+        -- intros j Hj _. rewrite Hz in Hfirst'. rewrite Hfirst', Hpre. cbn [concat app].
+           destruct j as [|j]; [lia|]. cbn [app nth]. rewrite HnthB by lia. rewrite Hz.
+           cbn [Nat.sub]. rewrite Nat.sub_0_r.
+           destruct (Nat.lt_ge_cases j (length rest)) as [Hl|Hl].
+           ++ rewrite (nth_indep _ [] (block_rowsum K [] cols)) by (rewrite map_length; exact Hl).
+              rewrite (map_nth (fun rows => block_rowsum K rows cols)). reflexivity.
+           ++ rewrite HB, Hpre in Hj. cbn [app length] in Hj. lia.
+      * destruct Hinv as [[Hc|Hlen] Hn]; [contradiction|].
+        assert (Hk : (S bc + length rest <= length rs)%nat).
+        { rewrite Hlen, HB, app_length. cbn [length]. fold bc. lia. }
+        destruct (post_rs_pos bc cols rest (S bc) rs Hnz Hk) as [P1 P2]. split.
+        -- right. unfold rs'. rewrite P1. exact Hlen.
+        -- intros j Hj _. unfold rs'. rewrite P2.
+           assert (E1 : (S bc <=? j)%nat = true) by (apply Nat.leb_le; lia).
+           assert (E2 : (j <? S bc + length rest)%nat = true).
+           { apply Nat.ltb_lt. rewrite HB, app_length in Hj. cbn [length] in Hj. fold bc in Hj. lia. }
+           rewrite E1, E2. cbn [andb]. rewrite Hn by (auto; lia). rewrite <- HnthB by lia.
+           rewrite Hfirst', Hfirst. unfold block_rowsum. fold (rsum (concat pre)) (rsum cols).
+           rewrite vadd_maps. apply map_ext. intro r. fold (rsum (concat pre ++ cols) r).
+           rewrite rsum_app. reflexivity.
+    + intro E. destruct pre; discriminate.
+    + exists rsf. rewrite app_length in Hf. cbn [length] in Hf. fold bc in Hf.
+      replace (bc + 1)%nat with (S bc) in Hf by lia. fold rs'. rewrite Hf.
+      cbn [map]. rewrite <- !app_assoc. reflexivity.
+Qed.
+
+Lemma traverse_dense : exists rsf,
+  traverse K B = (map (fun cols => map (csum (concat B)) cols) B, rsf,
+                  map (fun cols => map (fun c => kent K c c) cols) B).
+Proof.
+  unfold traverse. change (enum B) with (enum_from (length (@nil (list nat))) B).
+  apply (outer_all B [] [] [vzero (length (hd [] B))] []); [reflexivity | | auto].
+  split; [left; reflexivity|]. intros j Hj Hz. rewrite (Hz eq_refl). cbn [length firstn concat nth].
+  unfold block_rowsum. cbn [map qsum]. destruct B as [|b0 B']; [cbn in Hj; lia|].
+  cbn [nth hd]. apply vzero_map.
+Qed.
+End Tri.
+
+(* ---- instantiation to dataset.batch(bs) *)
+Lemma chunks_fuel_map {A B} (f : A -> B) fuel b l :
+  chunks_fuel fuel b (map f l) = map (map f) (chunks_fuel fuel b l).
+Proof. revert l. induction fuel as [|fu IH]; intro l; [reflexivity|].
+  destruct l as [|x l]; [reflexivity|]. cbn [chunks_fuel map].
+  change (f x :: map f l) with (map f (x :: l)). rewrite firstn_map, skipn_map, IH. reflexivity. Qed.
+Lemma chunks_map {A B} (f : A -> B) b l : chunks b (map f l) = map (map f) (chunks b l).
+Proof. unfold chunks. rewrite map_length. apply chunks_fuel_map. Qed.
+
+Lemma pad_map (g : Qc -> Qc) bs v : g 0 = 0 -> map g (pad bs v) = pad bs (map g v).
+Proof. intro H. unfold pad. rewrite map_app, map_length. f_equal.
+  induction (bs - length v)%nat as [|k IH]; cbn [repeat map]; [reflexivity | rewrite H, IH; reflexivity]. Qed.
+Lemma pad_last_map (g : Qc -> Qc) bs t : g 0 = 0 -> map (map g) (pad_last bs t) = pad_last bs (map (map g) t).
+Proof. intro H. induction t as [|x t IH]; [reflexivity|].
+  destruct t as [|y t]; [cbn [pad_last map]; rewrite pad_map by exact H; reflexivity|].
+  change (pad_last bs (x :: y :: t)) with (x :: pad_last bs (y :: t)).
+  change (map (map g) (x :: y :: t)) with (map g x :: map g y :: map (map g) t).
+  change (pad_last bs (map g x :: map g y :: map (map g) t)) with (map g x :: pad_last bs (map g y :: map (map g) t)).
+  cbn [map]. f_equal. exact IH. Qed.
+
+(* colmeans_triangular: for a symmetric kernel matrix and EVERY batch size, the tables accumulated over the lower
+   block triangle are the row-major cut of the dense column means / dense diagonal, zero padded *)
+Theorem colmeans_triangular K n bs : symmetric K n -> (1 <= bs)%nat ->
+  col_means_table K bs n = table_of bs (dense_col_means K n) /\
+  diag_table K bs n = table_of bs (dense_diag K n).
+Proof.
+  intros Hs Hbs.
+  assert (Hc : concat (batches bs n) = seq 0 n) by (apply concat_chunks; exact Hbs).
+  destruct (traverse_dense K (batches bs n)) as [rsf E].
+  { intros r c Hr Hcc. rewrite Hc in Hr, Hcc. apply in_seq in Hr, Hcc. apply Hs; lia. }
+  unfold col_means_table, diag_table, table_of. rewrite E, Hc. split.
+  - rewrite pad_last_map by (unfold Qcdiv; ring). f_equal.
+    unfold batches, dense_col_means. rewrite chunks_map, !map_map. apply map_ext. intro cols.
+    rewrite map_map. reflexivity.
+  - f_equal. unfold batches, dense_diag. rewrite chunks_map. reflexivity.
+Qed.
